@@ -157,6 +157,8 @@ class _ReadSourceGenerator:
 
             if self.align and field.offset is None:
                 yield f"stream.seek(-stream.tell() & ({field.alignment} - 1), {io.SEEK_CUR})"
+                # Where this leaves the stream depends on where the structure started: seek to the next field with an offset
+                position_known = False
 
         for field in self.fields:
             field_type = field.type
